@@ -113,6 +113,11 @@ def coerce_float(maybe_float: _ScalarValue) -> float:
         raise ValueError(
             "Float cannot represent non numeric value: %s" % maybe_float
         )
+    except OverflowError:
+        # Integers too large for a double.
+        raise ValueError(
+            "Float cannot represent non finite value: %s" % maybe_float
+        )
 
     # NaN and infinities are not valid GraphQL (or JSON) floats.
     if numeric != numeric or numeric in (float("inf"), float("-inf")):
